@@ -6,7 +6,7 @@
    Uses functional extensionality (an axiom already brought in by Coq's Reals). *)
 From Coq Require Import Reals QArith ZArith List Bool Arith Lia Lra FunctionalExtensionality.
 From Coquelicot Require Import Coquelicot.
-From BQ Require Import lib.Expr lib.ExprThm gate.Matrix gate.MatrixThm gate.Composed gate.GateLib gate.GateThm.
+From BQ Require Import lib.Expr lib.ExprThm gate.Matrix gate.MatrixThm gate.Composed gate.GateLib gate.GateThm gate.FrozenThm.
 Import ListNotations.
 Local Open Scope nat_scope.
 
@@ -294,4 +294,76 @@ Proof.
       replace (Z.neg p) with (- Z.of_nat (Pos.to_nat p))%Z by (rewrite positive_nat_Z; reflexivity).
       apply Cpower_neg_is_product.
     + destruct (SPEC (U x, G)) as [_ S2]. rewrite S2. unfold dadj; simpl. rewrite dpow_components. reflexivity.
+Qed.
+
+(* ---- FrozenParameterGate: substitution, and the kept gradient rows ----------------- *)
+(* generic: substitute s for the parameters; if s u is the new parameter t and no other
+   s k mentions t, the derivative w.r.t. t of the substituted expression is the
+   substituted u-th partial derivative *)
+Theorem subst_deriv (e : cexpr) (s : nat -> rexpr) (t u : nat) rho :
+  s u = RVar t ->
+  (forall k, k <> u -> forall x, reval (upd rho t x) (s k) = reval rho (s k)) ->
+  is_Cderive (fun x => ceval (upd rho t x) (csubst s e)) (rho t) (ceval rho (csubst s (cderiv u e))).
+Proof.
+  intros Hu Hind.
+  set (rho' := fun k => reval rho (s k)).
+  assert (E : forall x k, reval (upd rho t x) (s k) = upd rho' u x k).
+  { intros x k. unfold upd at 2. destruct (Nat.eqb k u) eqn:K.
+    - apply Nat.eqb_eq in K; subst k. rewrite Hu. simpl. unfold upd. rewrite Nat.eqb_refl. reflexivity.
+    - apply Nat.eqb_neq in K. unfold rho'. apply Hind; auto. }
+  apply (is_Cderive_ext (fun x => ceval (upd rho' u x) e)).
+  - intros x. rewrite csubst_sound. apply ceval_ext. intros k. symmetry. apply E.
+  - rewrite csubst_sound. fold rho'.
+    replace (rho t) with (rho' u) by (unfold rho'; rewrite Hu; reflexivity).
+    apply cderiv_correct_at.
+Qed.
+
+(* the substitution FrozenParameterGate performs (gate/GateModel.v) *)
+Definition frozen_subst (n : nat) (fz : list (nat * Q)) : nat -> rexpr :=
+  let m := n - length fz in
+  let full := full_params (map (fun kx => (fst kx, RQ (snd kx))) fz) (map RVar (seq 0 m)) in
+  fun k => nth k full (RVar k).
+
+Lemma forallb_map' {X Y} (f : Y -> bool) (g : X -> Y) l : forallb f (map g l) = forallb (fun x => f (g x)) l.
+Proof. induction l; simpl; auto. rewrite IHl. reflexivity. Qed.
+Lemma existsb_map' {X Y} (f : Y -> bool) (g : X -> Y) l : existsb f (map g l) = existsb (fun x => f (g x)) l.
+Proof. induction l; simpl; auto. rewrite IHl. reflexivity. Qed.
+
+Lemma frozen_valid_map n (fz : list (nat * Q)) :
+  frozen_valid n fz = true -> frozen_valid n (map (fun kx => (fst kx, RQ (snd kx))) fz) = true.
+Proof. unfold frozen_valid. rewrite map_length, map_map. simpl.
+  rewrite forallb_map'. simpl. auto. Qed.
+
+(* frozen = substitution: frozen indices carry the frozen constants, the t-th unfrozen
+   index carries the new parameter t, and the t-th kept gradient row
+   (grads[unfixed_param_idxs][t]) is the derivative w.r.t. the new parameter t *)
+Theorem frozen_subst_frozen n fz k q : frozen_valid n fz = true -> In (k, q) fz ->
+  frozen_subst n fz k = RQ q.
+Proof.
+  intros V Hin. unfold frozen_subst.
+  apply (full_params_frozen rexpr (RVar k) n _ _ (frozen_valid_map n fz V)).
+  - rewrite !map_length, seq_length. reflexivity.
+  - apply in_map_iff. exists (k, q). auto.
+Qed.
+Theorem frozen_subst_free n fz t : frozen_valid n fz = true -> t < n - length fz ->
+  frozen_subst n fz (nth t (unfixed_idxs n fz) 0) = RVar t.
+Proof.
+  intros V Ht. unfold frozen_subst.
+  set (fz' := map (fun kx => (fst kx, RQ (snd kx))) fz).
+  set (ps := map RVar (seq 0 (n - length fz))).
+  set (u := nth t (unfixed_idxs n fz) 0).
+  assert (EU : unfixed_idxs n fz' = unfixed_idxs n fz).
+  { unfold unfixed_idxs, fz'. apply filter_ext. intros i. rewrite existsb_map'. reflexivity. }
+  pose proof (full_params_free rexpr (RVar u) n fz' ps (frozen_valid_map n fz V)) as F.
+  assert (PL : length ps = n - length fz') by (unfold ps, fz'; rewrite !map_length, seq_length; reflexivity).
+  specialize (F PL). rewrite EU in F.
+  assert (LU : length (unfixed_idxs n fz) = n - length fz).
+  { apply (f_equal (@length rexpr)) in F. rewrite map_length in F. rewrite F. unfold ps.
+    rewrite map_length, seq_length. reflexivity. }
+  apply (f_equal (fun l => nth t l (RVar u))) in F.
+  rewrite (nth_indep _ (RVar u) (nth 0 (full_params fz' ps) (RVar u))) in F by (rewrite map_length; lia).
+  change (nth 0 (full_params fz' ps) (RVar u)) with ((fun v => nth v (full_params fz' ps) (RVar u)) 0) in F.
+  rewrite map_nth in F. fold u in F. rewrite F. unfold ps.
+  rewrite (nth_indep _ (RVar u) (RVar 0)) by (rewrite map_length, seq_length; lia).
+  change (RVar 0) with (RVar 0). rewrite map_nth, seq_nth by lia. reflexivity.
 Qed.
